@@ -238,7 +238,38 @@ func execSpecDecode(o *out, f [][]int) []int {
 	// is a function of the bytes alone, and after Write Raw holds exactly this input
 	reusedDecodeMu.Lock()
 	bad := false
-	for k, rm := range []*stun.Message{&reusedDecodeMsg, &reusedWriteMsg} {
+	// every other entry point on a fresh Message: the same verdict and content
+	for _, entry := range []func(mm *stun.Message) error{
+		func(mm *stun.Message) error { return mm.UnmarshalBinary(data) },
+		func(mm *stun.Message) error { return mm.GobDecode(data) },
+		func(mm *stun.Message) error { _, e := mm.ReadFrom(bytes.NewReader(data)); return e },
+		func(mm *stun.Message) error { return (&stun.Message{Raw: append([]byte(nil), data...)}).CloneTo(mm) },
+	} {
+		fm := &stun.Message{Raw: make([]byte, 0, len(data)+8)}
+		var ferr error
+		fpan, _ := guarded(func() { ferr = entry(fm) })
+		fobs := []int{0}
+		switch {
+		case fpan:
+			fobs = []int{2}
+		case ferr == nil:
+			fobs = project(fm)
+		}
+		if fmt.Sprint(fobs) != fmt.Sprint(obs) {
+			bad = true
+		}
+	}
+	for k, rm := range []*stun.Message{&reusedDecodeMsg, &reusedWriteMsg, &reusedWriteMsg} {
+		if k == 2 {
+			// the application edited the decoded fields (a handler turning a request into its response) and
+			// the very same datagram arrives again: what is reported is again the parse of the bytes
+			rm.Type = stun.MessageType{Method: 0xabc, Class: 3}
+			rm.TransactionID = [stun.TransactionIDSize]byte{0xEE, 0xEE}
+			if len(rm.Attributes) > 0 {
+				rm.Attributes = rm.Attributes[:len(rm.Attributes)-1]
+			}
+			rm.Length = 4
+		}
 		var rerr error
 		rpan, _ := guarded(func() {
 			if k == 0 {
